@@ -507,7 +507,7 @@ def check_arith(ctx, book, sc, ev):
     if ev.get("malformed"):
         ctx.violate("result-not-a-list-of-results", base_facts(sc, returned=ev.get("returned"), repr=ev.get("repr")), sc)
         return False
-    expected = [dict(W.arith_value(*a[:3]), cfg=W.CONFIG_MARKER) for a in sc["args"]]      # the sequential run
+    expected = [dict(W.arith_value(*a[:3]), cfg=f"{W.CONFIG_MARKER}/{sc['sid']}") for a in sc["args"]]      # the sequential run
     got = ev["payloads"]
     order, identity = book.note("arith", k, n, ev["timing"])
     facts = base_facts(sc, completion_order_is_submission_order=identity, returned_len=len(got))
